@@ -241,6 +241,30 @@ def _interp(ctx):
                             where = "q/m-mixed" if nm != "V-dgamma-dV" and _is_permutation_of_modes(gg, eg) else "value"
                             ctx.violation(f"exactness:{nm}:{method}:{where}", f"{cls}: {nm} differs from the closed form by {e:.3g} (tol {tl:.3g})", case_id, data_)
                             break
+                    # history: the same mode data sampled at other interior volumes between the same two end volumes (same count,
+                    # same order), straight afterwards in the same process - the interpolant must again be exact
+                    w_ = numpy.linspace(0, 1, nv) ** float(rng.choice([0.6, 1.7]))
+                    w_[1:-1] += rng.uniform(-0.2, 0.2, size=nv - 2) / nv
+                    lv = numpy.log(volumes)
+                    vol2 = numpy.exp(lv[0] + (lv[-1] - lv[0]) * w_)
+                    vol2[0], vol2[-1] = volumes[0], volumes[-1]
+                    if numpy.all(numpy.diff(vol2) < 0) and not numpy.allclose(vol2, volumes, rtol=1e-3):
+                        table2 = closed_form(par, vol2, dcls)[0]
+                        table2[:, 0, :3] = table[:, 0, :3]
+                        r3 = _call(ctx, make_input(vol2, table2), v, method, order, case_id, cls)
+                        ctx.evaluation("same-end-volumes-other-interior|" + cls, (method, nv, order, dcls, rep), nontrivial=nontriv)
+                        if r3 is not None:
+                            f3, g3, d3 = (z[::-1][:, mask] for z in r3)
+                            with numpy.errstate(all="ignore"):
+                                errs = (numpy.abs(numpy.log(f3) - numpy.log(ef)).max(), numpy.abs(g3 - eg).max(), numpy.abs(d3 - ed).max())
+                            ctx.count("exactness_checks")
+                            for e, tl, nm in zip(errs, (tol_f, tol_g, tol_d), ("frequency", "gamma", "V-dgamma-dV")):
+                                ctx.maxi("exact_followup_err/tol", e / (30 * tl))
+                                if not (e <= 30 * tl):
+                                    ctx.violation(f"exactness:{nm}:{method}:after-another-volume-set-with-the-same-ends",
+                                                  f"{cls}: {nm} differs from the closed form by {e:.3g} (tol {30 * tl:.3g}) for a second volume set with the "
+                                                  f"same end volumes and count", case_id, {**data_, "volumes_first": volumes.tolist(), "volumes_second": vol2.tolist()})
+                                    break
 
 
 def _is_permutation_of_modes(got, want):
